@@ -26,6 +26,9 @@ def getFList (j : Json) : R (List Float) := do
   let a ← getArr j
   a.toList.mapM getF
 
+def getFBList (j : Json) : R (List FB) := do
+  pure ((← getFList j).map FB.exact)
+
 def getNatList (j : Json) : R (List Nat) := do
   let a ← getArr j
   a.toList.mapM (·.getNat?)
